@@ -229,8 +229,8 @@ impl Placer {
 //|                 -0x100_0000_0000 <= i * sx(*array) <= 0x100_0000_0000, -0x100_0000_0000 <= i * sy(*array) <= 0x100_0000_0000,
 //@   before /match &array\.unit \{/
 //|             let ghost ix = i as int; let ghost in0 = insts@;
-//|             proof { lemma_mul_range(ix, array.count as int, sx(*array)); lemma_mul_range(ix, array.count as int, sy(*array)); }
-//@   before /loc \+= sep;/
+//|             proof { lemma_mul_range(ix, array.count as int, sx(*array)); lemma_mul_range(ix, array.count as int, sy(*array)); lemma_mul_range(ix + 1, array.count as int, sx(*array)); lemma_mul_range(ix + 1, array.count as int, sy(*array)); }
+//@   loopend 1
 //|             proof {
 //|                 let f0 = flat_n(*array, ix as nat); let u = unit_at(*array, ix);
 //|                 assert(flat_n(*array, (ix + 1) as nat) == f0 + u);
